@@ -1208,6 +1208,10 @@ where
         self.store.for_each(|packet| {
             if packet.size() > self.maximum_packet_size_send as usize {
                 let packet_id = packet.packet_id();
+                // The exchange is abandoned: nothing may still wait for its acknowledgement
+                self.pid_puback.remove(&packet_id);
+                self.pid_pubrec.remove(&packet_id);
+                self.pid_pubcomp.remove(&packet_id);
                 if self.pid_man.is_used_id(packet_id) {
                     self.pid_man.release_id(packet_id);
                     events.push(GenericEvent::NotifyPacketIdReleased(packet_id));
